@@ -194,7 +194,13 @@ impl<'a, 'b> SearchGen<'a, 'b> {
                 4 => {
                     let mut sc = scope.clone();
                     let b = self.goals(&mut sc, depth + 1, 1);
-                    out.push(Goal::Closure(b));
+                    out.push(Goal::Closure(b.clone()));
+                    if self.s.flag(64) {
+                        // the same closure used twice in a row: the builder then uses ONE goal
+                        // object twice (clone), as a program that keeps a goal in a Rust variable
+                        // does; every evaluation of a closure must build its body anew
+                        out.push(Goal::Closure(b));
+                    }
                 }
                 6 => {
                     // literal `true` / `false` leaves: goals that are folded statically
@@ -234,7 +240,13 @@ pub fn gen_branch(s: &mut Source, q: VarId, marker: i64, next_var: &mut VarId) -
     let qv = Term::Var(q);
     match s.weighted(&[4, 2, 2, 2, 2, 2, 1, 1, 1, 1, 1, 1]) {
         // depth-first blocks as branches of an interleaving disjunction
-        9 => (vec![Goal::Dfs(vec![Goal::Call(Rel::Diverge, vec![])])], BranchKind::Diverger),
+        9 => match s.below(3) {
+            0 => (vec![Goal::Dfs(vec![Goal::Call(Rel::Diverge, vec![])])], BranchKind::Diverger),
+            // a depth-first disjunction whose first clause searches for ever without an answer
+            1 => (vec![Goal::Dfs(vec![Goal::Conde(vec![vec![Goal::Call(Rel::Diverge, vec![])], vec![Goal::Eq(qv, Term::Int(marker))]])])], BranchKind::Diverger),
+            // ... or whose second clause does: one answer, then silence
+            _ => (vec![Goal::Dfs(vec![Goal::Conde(vec![vec![Goal::Eq(qv, Term::Int(marker))], vec![Goal::Call(Rel::Diverge, vec![])]])])], BranchKind::Diverger),
+        },
         10 => (vec![Goal::Dfs(vec![Goal::Call(Rel::Member, vec![qv, Term::ints(&[marker, marker + 100])])])], BranchKind::Finite),
         11 => {
             // a diverger that recurses only through fresh / closure (no conde, no Delay)
@@ -250,11 +262,13 @@ pub fn gen_branch(s: &mut Source, q: VarId, marker: i64, next_var: &mut VarId) -
         2 => (vec![Goal::Anyo(vec![Goal::Eq(qv, Term::Int(marker))])], BranchKind::Producer),
         3 => (vec![Goal::Always, Goal::Eq(qv, Term::Int(marker))], BranchKind::Producer),
         4 => {
-            // nat(x), q == [marker | x]
+            // nat(x), q == marker: infinitely many answers through a recursive relation; x stays
+            // hidden so that the answers do not grow (with growing answers an unfair scheduler
+            // makes the run spend its time reifying them, where the step budget cannot stop it)
             let x = *next_var;
             *next_var += 1;
             (
-                vec![Goal::Fresh(vec![x], vec![Goal::Call(Rel::Nat, vec![Term::Var(x)]), Goal::Eq(qv, Term::cons(Term::Int(marker), Term::Var(x)))])],
+                vec![Goal::Fresh(vec![x], vec![Goal::Call(Rel::Nat, vec![Term::Var(x)]), Goal::Eq(qv, Term::Int(marker))])],
                 BranchKind::Producer,
             )
         }
